@@ -169,9 +169,79 @@ QPagesLoop(st, g) ==
 RunQPages(st, g) ==
   QPagesLoop(st, IF g.pend.has THEN [g EXCEPT !.stack = QPush(@, g.start, g.pend), !.pend = [has |-> FALSE]] ELSE g)
 
+(***************************************************************************)
+(* get_webentities_links_iter(out, include_auto) - the fast network query. *)
+(* Phase 1 walks the whole trie carrying the nearest webentity down        *)
+(* (dfs_with_webentity_iter, same stale-push discipline), records          *)
+(* page -> webentity and the head of each page's link list AS READ THEN;   *)
+(* a yield point after every page that has a webentity.  Phase 2 walks the *)
+(* recorded heads; each list is read when its turn comes; a yield point    *)
+(* after every edge counted.  Sources and targets are thus resolved at     *)
+(* different moments (known finding F11: MC_coop_f11 exhibits it).         *)
+(***************************************************************************)
+NewNetQuery(out, auto) ==
+  [kind |-> "qnet", out |-> out, auto |-> auto, phase |-> "p1", started |-> FALSE, stack |-> <<>>,
+   pend |-> [has |-> FALSE], map |-> {}, ptrs |-> <<>>, pi |-> 1, cur |-> <<>>, curwe |-> 0,
+   graph |-> {}, pages |-> 0, created |-> <<>>, done |-> FALSE, exc |-> ""]
+
+NPush(stack, pend) ==
+  stack
+  \o (IF pend.node.r # 0 THEN <<[b |-> pend.node.r, we |-> pend.inh]>> ELSE <<>>)
+  \o (IF pend.node.l # 0 THEN <<[b |-> pend.node.l, we |-> pend.inh]>> ELSE <<>>)
+  \o (IF pend.node.ch # 0 THEN <<[b |-> pend.node.ch, we |-> pend.cw]>> ELSE <<>>)
+
+GAdd(G, a, b, w) ==      \* graph[a][b] += w, the graph as a set of <<a, b, weight>>
+  IF \E e \in G : e[1] = a /\ e[2] = b
+  THEN { IF e[1] = a /\ e[2] = b THEN <<a, b, e[3] + w>> ELSE e : e \in G }
+  ELSE G \cup {<<a, b, w>>}
+MapGet(m, b) == IF \E e \in m : e[1] = b THEN (CHOOSE e \in m : e[1] = b)[2] ELSE 0
+MapSet(m, b, w) == { e \in m : e[1] # b } \cup {<<b, w>>}
+
+RECURSIVE QNetP2(_, _)
+RECURSIVE QNetP2Items(_, _)
+QNetP2(st, g) ==
+  IF g.cur = <<>> THEN
+    IF g.pi > Len(g.ptrs) THEN [st |-> st, g |-> [g EXCEPT !.done = TRUE]]
+    ELSE LET p == g.ptrs[g.pi]
+             w == Weighted(st.ls, p.head)                      \* the list is read now
+         IN QNetP2Items(st, [g EXCEPT !.pi = @ + 1, !.curwe = p.we, !.cur = w])
+  ELSE QNetP2Items(st, g)
+QNetP2Items(st, g) ==
+  IF g.cur = <<>> THEN QNetP2(st, g)
+  ELSE LET it  == g.cur[1]
+           twe == MapGet(g.map, it[1])
+           g1  == [g EXCEPT !.cur = Tail(@)]
+       IN IF twe = 0 \/ (~g.auto /\ twe = g.curwe) THEN QNetP2Items(st, g1)
+          ELSE [st |-> st, g |-> [g1 EXCEPT !.graph = GAdd(@, g.curwe, twe, it[2])]]    \* counted: yield
+
+RECURSIVE QNetP1(_, _)
+QNetP1(st, g) ==
+  IF g.stack = <<>> THEN QNetP2(st, [g EXCEPT !.phase = "p2"])
+  ELSE LET top  == g.stack[Len(g.stack)]
+           rest == SubSeq(g.stack, 1, Len(g.stack) - 1)
+           node == st.trie[top.b]
+           cw   == IF node.we # 0 THEN node.we ELSE top.we
+           pend == [has |-> TRUE, node |-> node, inh |-> top.we, cw |-> cw]
+           head == IF g.out THEN node.o ELSE node.i
+       IN IF node.pg /\ cw # 0
+          THEN [st |-> st,
+                g |-> [g EXCEPT !.stack = rest, !.pend = pend, !.map = MapSet(@, top.b, cw),
+                                !.ptrs = IF head # 0 THEN Append(@, [we |-> cw, head |-> head]) ELSE @]]
+          ELSE QNetP1(st, [g EXCEPT !.stack = NPush(rest, pend)])
+
+RunQNet(st, g) ==
+  IF g.phase = "p1" THEN
+    LET g0 == IF ~g.started
+              THEN [g EXCEPT !.started = TRUE, !.stack = IF Len(st.trie) = 0 THEN <<>> ELSE <<[b |-> 1, we |-> 0]>>]
+              ELSE g
+        g1 == IF g0.pend.has THEN [g0 EXCEPT !.stack = NPush(@, g0.pend), !.pend = [has |-> FALSE]] ELSE g0
+    IN QNetP1(st, g1)
+  ELSE QNetP2Items(st, g)
+
 RunGen(st, ram, def, g) ==
   IF g.kind = "crawl" THEN RunCrawl(st, ram, def, g)
   ELSE IF g.kind = "qpages" THEN RunQPages(st, g)
+  ELSE IF g.kind = "qnet" THEN RunQNet(st, g)
   ELSE RunRule(st, ram, def, g)
 
 =============================================================================
